@@ -46,7 +46,7 @@ func c18Docs(thorough bool) []doc {
 // first expressions: every built-in at least once with arguments that succeed on some document, and the core constructs
 var c18First = []string{
 	"@", "s", "n", "a", "sa", "o", "oa", "p", "missing", "a[0]", "a[-1]", "a[1:]", "a[::-1]", "a[*]", "a[]", "oa[*].k", "oa[?n > `1`]", "oa[?n > `1`].k", "o.*", "*", "oa[*].*", "[s, n]", "{x: s, y: a}",
-	"oa[*].{x: k}", "oa[*].[k, n]", "a | [0]", "`[1,null,{\"a\":[]}]`", "`{\"a\":null}`", "'raw'", "`1.50`", "`null`", "`7 `", "`-1.5\n`", "`0\t`", "` [1, 2 ] `", "`{\"a\": 1 } `", "[`7 `, `8`]", "n + n", "n - `0.5`", "n * n", "n / `4`", "n // `2`", "n % `2`", "-n", "+n",
+	"oa[*].{x: k}", "oa[*].[k, n]", "a | [0]", "`[1,null,{\"a\":[]}]`", "`{\"a\":null}`", "'raw'", "`1.50`", "`null`", "`7 `", "`-1.5\n`", "`0\t`", "` [1, 2 ] `", "`{\"a\": 1 } `", "[`7 `, `8`]", "`9e6144` / `1e-40`", "[`9e6144` / `1e-40`, n]", "`-9e6144` * `1e40`", "map(&(@ / `1e-6100`), `[9e6000]`)", "{q: `1e6144` / `0.001`}", "n + n", "n - `0.5`", "n * n", "n / `4`", "n // `2`", "n % `2`", "-n", "+n",
 	"n == n", "n < `2`", "s == 'a,b'", "!s", "s && n", "missing || a", "let $v = a in [$v, $v]", "let $v = n in oa[*].[$v, n]",
 	"abs(n)", "avg(a[?@])", "ceil(n)", "contains(a, `1`)", "contains(s, 'a')", "ends_with(s, 'b')", "find_first(s, 'b')", "find_last(s, 'a', `0`)", "floor(n)", "from_items(p)", "group_by(oa, &k)",
 	"items(o)", "join('-', sa)", "keys(o)", "length(a)", "length(s)", "length(o)", "lower(s)", "map(&k, oa)", "map(&[@], a)", "max(a[?@])", "max(sa)", "max_by(oa, &n)", "merge(o, {z: n})", "min(a[?@])",
